@@ -1,5 +1,6 @@
 import Flurry.SigDefs
 import Flurry.Gen.Serde
+import Flurry.Spec.Bulk
 /-! # C19 — optional bulk paths (serde, rayon), at the level of the abstract map
 
 `mapDupPolicy` / `setDupPolicy` are regenerated from `src/serde_impls.rs` on every run (what
@@ -9,39 +10,6 @@ map behaves like it sequentially is C02, that parallel inserts are equivalent to
 order of the same inserts is C01. -/
 namespace Flurry.C19
 open Flurry.Sig Flurry.Gen
-
-abbrev AMap := List (Nat × Nat)
-
-def lookup (k : Nat) : AMap → Option Nat
-  | [] => none
-  | (k', v) :: rest => if k' = k then some v else lookup k rest
-
-def insert (m : AMap) (k v : Nat) : AMap :=
-  match m with
-  | [] => [(k, v)]
-  | (k', v') :: rest => if k' = k then (k, v) :: rest else (k', v') :: insert rest k v
-
-inductive Res where
-  | ok (m : AMap)
-  | err
-  | panic
-deriving Repr, DecidableEq
-
-/-- the visitor loop: insert entry by entry; a repeated key is handled per the extracted policy -/
-def deserializeFrom (pol : DupPolicy) : List (Nat × Nat) → AMap → Res
-  | [], acc => .ok acc
-  | (k, v) :: rest, acc =>
-    if (lookup k acc).isSome then
-      match pol with
-      | .lastWins => deserializeFrom pol rest (insert acc k v)
-      | .error => .err
-      | .panic => .panic
-    else deserializeFrom pol rest (insert acc k v)
-
-def deserialize (pol : DupPolicy) (doc : List (Nat × Nat)) : Res := deserializeFrom pol doc []
-
-/-- serialisation writes the entries the iterator yields: each key once (C05) -/
-def serialize (m : AMap) : List (Nat × Nat) := m
 
 theorem lookup_insert_same (m : AMap) (k v : Nat) : lookup k (insert m k v) = some v := by
   induction m with
